@@ -14,7 +14,7 @@ from pathlib import Path
 
 from ..common import close, violation
 from ..cxx import lab
-from ..gen import encode
+from ..gen import chem, encode
 
 # cooling processes: reactant lists as in the cooling-function literature (Cen 1992 / Grackle)
 COOLING = {
@@ -64,10 +64,12 @@ def build_network(case: dict, workdir: Path):
                        species_kwargs=skw, heating=list(mod.heating), cooling=list(mod.cooling), shielding=dict(mod.shielding), grain_model=mod.grain_model,
                        rate_modifier={int(k): v for k, v in mod.rate_modifier.items()}, ode_modifier=dict(mod.ode_modifier))
     net = case["net"]
+    install_spelling(case)
     provide_binding_energies(net)
     reacs = net["reactions"]
     alphas = case["alphas"]
     kw = dict(required_species=list(net.get("required") or []) or None)
+    kw.update(spelling_kwargs(case))
     if case.get("cooling"):
         kw["cooling"] = list(case["cooling"])
     if case.get("ode_modifier"):
@@ -105,6 +107,21 @@ def build_network(case: dict, workdir: Path):
     return Network(filelist=files, fileformats=fmts, **kw)
 
 
+def install_spelling(case):
+    """Upper-case element spelling with a replacement table, installed the way `naunet render` installs it."""
+    from naunet.species import Species
+    if case.get("spelling") == "upper_replace":
+        Species._replacement = dict(chem.UPPER_REPLACEMENT)
+        Species.set_known_elements(list(chem.UPPER_ELEMENTS))
+        Species.set_known_pseudoelements(list(chem.UPPER_PSEUDO))
+
+
+def spelling_kwargs(case) -> dict:
+    if case.get("spelling") == "upper_replace":
+        return dict(elements=list(chem.UPPER_ELEMENTS), pseudo_elements=list(chem.UPPER_PSEUDO))
+    return {}
+
+
 def provide_binding_energies(net):
     """Ice species need a binding energy at render time (eb_<alias> constants): give every generated ice
     species one through the documented user table, under both surface-prefix spellings."""
@@ -113,6 +130,8 @@ def provide_binding_energies(net):
     for sp in net["species"]:
         if sp["surface"]:
             core = sp["name"][1:]
+            if sp["name"].isupper() and sp["alias"][1:-1].upper() == core and sp["alias"][1:-1] != core:
+                core = sp["alias"][1:-1]          # upper-case spelling: the table is keyed by the name after element replacement
             v = 800.0 + 37.0 * (sum(ord(c) for c in core) % 50)
             eb["#" + core] = v
             eb["G" + core] = v
@@ -448,10 +467,12 @@ def preamble(out, backends, viol, obs, sanitizer_is_violation=True):
         viol.append(violation(kind, f"{w}: {m}", trace=tb))
     for be in backends:
         o = out.get(be)
-        if not o or "runs" not in o:
+        if not o:
             continue
-        for p in o["problems"]:
+        for p in o.get("problems") or []:
             viol.append(violation("slot_binding", f"{be}: {p[0]} {p[1]}", backend=be))
+        if "runs" not in o:
+            continue
         if o["sanitizer"]:
             obs["sanitizer_reports"] += len(o["sanitizer"])
             if sanitizer_is_violation:
